@@ -267,7 +267,14 @@ def check_taxonomy(graph, known_cycle_restriction=True):
                     fails.append(('shortest_path:symmetric-length', {'graph': graph, 'a': a, 'b': b}))
                 # lowest common hypernyms: those of greatest max_depth (exact when no cycle of length >= 2)
                 if not (long_cycle and known_cycle_restriction):
-                    lch = sorted(s.id for s in taxonomy.lowest_common_hypernyms(nodes[a], nodes[b], simulate_root=sr))
+                    raw = taxonomy.lowest_common_hypernyms(nodes[a], nodes[b], simulate_root=sr)
+                    # order contract: listed by (rowid, ILI), whatever the order of the arguments (wup takes the
+                    # first element; C14 relies on it for symmetry)
+                    keys = [(s._id, s._ili or '') for s in raw]
+                    if keys != sorted(keys):
+                        fails.append(('lowest_common_hypernyms:sorted', {'graph': graph, 'a': a, 'b': b,
+                                                                         'simulate_root': sr, 'order': keys}))
+                    lch = sorted(s.id for s in raw)
                     depth = {}
                     for c in anc_a & anc_b:
                         depth[f'ss{c}'] = taxonomy.max_depth(nodes[c], simulate_root=sr)
@@ -389,3 +396,23 @@ def sample(kind: str, nodes: int, count: int, seed: int = 0, p_edge: float = 0.3
                 pool.terminate()
                 break
     return len(jobs), fails
+
+
+def targeted(kind: str):
+    """Hand-picked graphs whose hypernym lists are NOT in increasing order (the exhaustive and random generators only
+    produce increasing lists, so a result that follows the discovery order coincides with the sorted one there):
+    two synsets with several lowest common hypernyms reached in different orders and over paths of different length."""
+    graphs = []
+    # 0, 1 -> {2, 3} in every combination of orders; 2, 3 roots or under a common root 4
+    for h0 in ((2, 3), (3, 2)):
+        for h1 in ((2, 3), (3, 2)):
+            graphs.append((h0, h1, (), ()))
+            graphs.append((h0, h1, (4,), (4,), ()))
+    # a -> x, a -> m -> y, b -> n -> y, b -> x; x, y -> r   (0=a 1=b 2=x 3=y 4=m 5=n 6=r), both orders at a and b
+    for ha in ((2, 4), (4, 2)):
+        for hb in ((5, 2), (2, 5)):
+            graphs.append((ha, hb, (6,), (6,), (3,), (3,), ()))
+    fails = []
+    for g in graphs:
+        fails.extend(_run((kind, g)))
+    return len(graphs), fails
